@@ -650,7 +650,7 @@ func check32(thorough bool, seed int64) {
 	// 3. seeded random strings: 9..12 digits, every uint32/uint64 magnitude
 	nr := 100
 	if thorough {
-		nr = 20000
+		nr = 5000
 	}
 	r.par("random", nr, func(k int, l *local) {
 		rnd := rand.New(rand.NewSource(seed*1000003 + int64(k)))
